@@ -43,6 +43,10 @@ type Event struct {
 	Valid  bool     `json:"valid"`
 	Files  bool     `json:"files"`
 	Reads  [][]Op   `json:"reads"` // ReadMerged: what every reader saw (several reads on each replica)
+	// CommitInvalid: an operation that does not validate was appended by hand; the commit was refused / the ref moved all the same
+	Refused bool   `json:"refused"`
+	Moved   bool   `json:"moved"`
+	What    string `json:"what"`
 }
 
 func sha(b []byte) string {
@@ -442,7 +446,42 @@ func runSession(seed uint64, backend string) []*Event {
 	if backend == "gogit" && s.r.n(2) == 0 {
 		s.mergedPhase(b)
 	}
+	s.commitInvalid(b.Id())
 	return s.events
+}
+
+// commitInvalid: the editing API checks what it appends; an operation appended by hand that does not validate (a blank title, a
+// title with a line break, a message with an escape character, a label change without labels, an edit aiming at no id, no time)
+// must not get past Commit: what is committed passes validation wherever it is read.
+func (s *session) commitInvalid(id entity.Id) {
+	fb, err := bug.Read(s.repoA, id)
+	if err != nil {
+		return // already reported by the reads
+	}
+	au := s.authors[0]
+	s.unix++
+	var op bug.Operation
+	what := []string{"blank title", "title with a line break", "message with an escape character", "label change without labels", "edit aiming at no id", "no time"}[s.r.n(6)]
+	switch what {
+	case "blank title":
+		op = bug.NewSetTitleOp(au, s.unix, "   ", "was")
+	case "title with a line break":
+		op = bug.NewSetTitleOp(au, s.unix, "first line\nsecond line", "was")
+	case "message with an escape character":
+		op = bug.NewAddCommentOp(au, s.unix, "colour \x1b[31m red", nil)
+	case "label change without labels":
+		op = bug.NewLabelChangeOperation(au, s.unix, nil, nil)
+	case "edit aiming at no id":
+		op = bug.NewEditCommentOp(au, s.unix, entity.Id("not an id"), "text", nil)
+	default:
+		op = bug.NewAddCommentOp(au, 0, "written at no time", nil)
+	}
+	before, _ := s.repoA.ResolveRef("refs/bugs/" + id.String())
+	fb.Append(op)
+	cerr := fb.Commit(s.repoA)
+	after, _ := s.repoA.ResolveRef("refs/bugs/" + id.String())
+	s.events = append(s.events, &Event{Ev: "CommitInvalid", Eid: id.String(), What: what, Refused: cerr != nil, Moved: after != before,
+		Ops: []Op{}, Stored: []string{}, Times: []int{0, 0}, Reads: [][]Op{}})
 }
 
 // mergedPhase: both replicas hold the bug; each appends to it at the same time, both merge, and everybody reads several times.
